@@ -32,7 +32,7 @@ func AmfIdToNasWithError(amfId string) (amfRegionId uint8, amfSetId uint16, amfP
 }
 
 func AmfIdToModels(amfRegionId uint8, amfSetId uint16, amfPointer uint8) (amfId string) {
-	tmpBytes := []uint8{amfRegionId, uint8(amfSetId>>2) & 0xff, uint8(amfSetId&0x03) + amfPointer&0x3f}
+	tmpBytes := []uint8{amfRegionId, uint8(amfSetId>>2) & 0xff, uint8(amfSetId&0x03)<<6 + amfPointer&0x3f}
 	amfId = hex.EncodeToString(tmpBytes)
 	return
 }
